@@ -201,6 +201,79 @@ def work_arrays(chunk):
     return acc
 
 
+# ---------------------------------------------------------------------------------------------
+# arrays holding TWO different singular points (a != b, different limits) and regular points in every layout
+
+def work_arrays2(chunk):
+    from numdifftools.limits import Limit
+    acc = fw.Acc()
+    K1 = float(cm.ENV['C18']['K1'])
+    K2 = float(cm.ENV['C18']['K2'])
+    for gname, k1, k2, z0, pattern, method, path in chunk:
+        a, b = z0, z0 + 0.75
+        g = G[gname][0]
+        s1, s2 = KERNELS[k1], KERNELS[k2]
+
+        def f(z, a=a, b=b, g=g, s1=s1, s2=s2):
+            return g(z) * s1(z - a) * s2(z - b)
+        with mp.workdps(40):
+            ga = complex(G[gname][1](mp.mpmathify(a))) * complex(_mp_kernel(k2, mp.mpmathify(a) - mp.mpmathify(b)))
+            gb = complex(G[gname][1](mp.mpmathify(b))) * complex(_mp_kernel(k1, mp.mpmathify(b) - mp.mpmathify(a)))
+        pts, exact = [], []
+        for i, c in enumerate(pattern):
+            if c == 'A':
+                pts.append(a)
+                exact.append(ga)
+            elif c == 'B':
+                pts.append(b)
+                exact.append(gb)
+            else:
+                pts.append(z0 + 0.31 + 0.17 * i)
+                exact.append(None)
+        z = np.array(pts)
+        jc = dict(kind='array2', g=gname, k1=k1, k2=k2, z0=z0, pattern=pattern, method=method, path=path)
+        cell = ['array2/%s' % pattern]
+        try:
+            with warnings.catch_warnings():
+                warnings.simplefilter('ignore')
+                with np.errstate(all='ignore'):
+                    direct = f(z)
+                    val, info = Limit(f, full_output=True, method=method, path=path)(z)
+        except Exception as e:
+            acc.case(tuple(sorted(jc.items(), key=str)), nontrivial=True, cell=cell, outcome='raised')
+            acc.violation('C18:Limit-array:raised-%s' % type(e).__name__, jc, '%s: %s' % (type(e).__name__, e), rank=len(pattern))
+            continue
+        val = np.asarray(val)
+        est = np.asarray(info.error_estimate)
+        prob = None
+        if val.shape != z.shape:
+            prob = ('shape', 'input shape %r, result shape %r' % (z.shape, val.shape))
+        else:
+            for i, c in enumerate(pattern):
+                if c == 'R':
+                    if np.isfinite(direct[i]) and not val[i] == direct[i]:
+                        prob = ('regular-point-changed', 'f is finite at z=%r (%r) but Limit returned %r' % (z[i], direct[i], val[i]))
+                else:
+                    e = float(np.abs(est[i])) if est.shape == z.shape else float('nan')
+                    err = abs(complex(val[i]) - exact[i])
+                    if not err <= K1 * e + K2 * EPS * (abs(exact[i]) + 1):
+                        prob = ('singular-point-wrong', 'position %d (%s): Limit %r, exact limit %r, estimate %.3g; full '
+                                'result %r' % (i, c, val[i], exact[i], e, val.tolist()))
+                if prob:
+                    break
+        acc.case(tuple(sorted(jc.items(), key=str)), nontrivial=('A' in pattern and 'B' in pattern), cell=cell,
+                 outcome=prob is None)
+        if prob:
+            acc.violation('C18:Limit-array:two-singularities:%s' % prob[0], jc, prob[1], rank=len(pattern))
+    return acc
+
+
+def _mp_kernel(kname, w):
+    return {'sin(w)/w': lambda w: mp.sin(w) / w, 'expm1(w)/w': lambda w: mp.expm1(w) / w,
+            'log1p(w)/w': lambda w: mp.log1p(w) / w, 'w/sin(w)': lambda w: w / mp.sin(w),
+            'tan(w)/w': lambda w: mp.tan(w) / w, 'sinc2': lambda w: (mp.sin(w / 2) / (w / 2)) ** 2}[kname](w)
+
+
 def run(ctx):
     q = ctx.quick
     gs = list(G)
@@ -223,11 +296,15 @@ def run(ctx):
     ajobs = [(g, k, z0, pat, sk) for g in gsel[:2] for k in ks for z0 in z0s for pat in patterns
              for sk in ('1d', '2d', 'col')]
     acc.merge(ctx.pmap(work_arrays, ajobs, chunk=50))
+    pats2 = [''.join(p) for L in (2, 3, 4) for p in itertools.product('ABR', repeat=L) if 'A' in p and 'B' in p]
+    a2 = [(g, 'sin(w)/w', 'expm1(w)/w', z0, pat, m, pth) for g in gsel[:2] for z0 in z0s[:2] + z0s[-1:] for pat in pats2
+          for m in METHODS for pth in (PATHS if not q else PATHS[:1])]
+    acc.merge(ctx.pmap(work_arrays2, a2, chunk=40))
     for j in jobs[:2] + jobs[len(jobs) // 2:len(jobs) // 2 + 2]:
         acc.sample(dict(kind=j[0], g=j[1], kernel_or_pole=j[2], z0=j[3], method=j[4], path=j[5], order=j[6], step_ratio=j[7]))
     acc.sample(dict(kind='array', pattern='SRS', meaning='singular, regular, singular point in one call'))
     req = ['limit/%s/%s' % (k, p) for k in ks for p in PATHS] + ['residue/pole%d/%s' % (pp, p) for pp in (1, 2, 3) for p in PATHS]
-    req += ['limit/complex-z0', 'limit/real-z0', 'limit/below', 'limit/above', 'array/SRS', 'array/RS']
+    req += ['limit/complex-z0', 'limit/real-z0', 'limit/below', 'limit/above', 'array/SRS', 'array/RS', 'array2/RAB', 'array2/ARBR']
     rule = ('full product %d g x %d kernels x %d z0 (real and complex) x {above, below} x {radial, spiral} x order 1..8 x '
             'step_ratio {2,4,8,16} on the real Limit; Residue with poles of order 1..3, orders p+1..p+4; every S/R pattern '
             'of length <= 3 in 1-d, (1,L) and (L,1) arrays; |value - g(z0)| <= K1 x estimate + K2 x eps x (|g(z0)|+1) with '
@@ -242,7 +319,9 @@ def replay(case):
     z0 = case['z0']
     if isinstance(z0, dict):
         z0 = complex(z0['re'], z0['im'])
-    if case['kind'] == 'array':
+    if case['kind'] == 'array2':
+        a = work_arrays2([(case['g'], case['k1'], case['k2'], z0, case['pattern'], case['method'], case['path'])])
+    elif case['kind'] == 'array':
         a = work_arrays([(case['g'], case['kernel'], z0, case['pattern'], case['shape'])])
     elif case['kind'] == 'limit':
         a = work([('limit', case['g'], case['kernel'], z0, case['method'], case['path'], case['order'], case['ratio'])])
